@@ -45,6 +45,8 @@ COMBINATORS = {
     'std::option::Option::<T>::ok_or_else':        'opt_ok_or_else',   # match o { Some(x) => Ok(x), None => Err(g()) }
     'std::option::Option::<T>::or_else':           'opt_or_else',      # match o { Some(x) => Some(x), None => g() }
     'std::iter::Iterator::partition':           'partition',        # for x in it { if p(&x) { a.push(x) } else { b.push(x) } }
+    'std::vec::Vec::<T, A>::retain':            'retain',           # for x in v.iter() { if !f(x) { <drop x from v> } }   (order kept)
+    'std::vec::Vec::<T, A>::retain_mut':        'retain',
 }
 
 
@@ -343,6 +345,28 @@ def _lnorm_one(F, rw, N):
             if cls[0] is None: continue
             some = blk_([_agg(dst, 'std::option::Option::Some', [some0], line=line)])
             opt_switch(spl(cls[0], [], dst, after), some)
+        elif kind == 'retain':
+            # v.retain(f): every element is visited once, in order; the ones with f(&x) == false are dropped.  The drop is a
+            # synthetic call `Vec::<T>::retain_drop(&mut v, x)` so that rules see "this element leaves v" as an effect.
+            if cls[0] is None: continue
+            vref = a[0]
+            it = rw.new_local('?iter'); rv_ = rw.new_local('&?')
+            head = rw.new_block(); done = rw.new_block()
+            nm = 'core::slice::<impl [T]>::iter'
+            B[bi]['st'].append(_ref(rv_, {'l': vref['pl']['l'], 'p': list(vref['pl']['p']) + ['*']}, False, line))
+            B[bi]['term'] = mk_call(nm, nm, None, '[T]', 'iter', [_mv(rv_)], it, head, span)
+            o, some = N._emit_next(rw, head, it, span, done)
+            x = rw.new_local('&?'); r = rw.new_local('bool')
+            B[some]['st'].append(_use(x, _mv(o, SOME0), line))
+            nxt = rw.new_block(); drop = rw.new_block()
+            rw.goto(some, spl(cls[0], [_cp(x)], _pl(r), nxt))
+            B[nxt]['term'] = {'k': 'switch', 'd': _mv(r), 'ts': [[0, drop]], 'else': head}
+            vr2 = rw.new_local('&mut ?'); out_ = rw.new_local('()')
+            B[drop]['st'].append(_ref(vr2, {'l': vref['pl']['l'], 'p': list(vref['pl']['p']) + ['*']}, True, line))
+            dn = 'std::vec::Vec::<T>::retain_drop'
+            B[drop]['term'] = mk_call(dn, dn, None, 'std::vec::Vec::<T>', 'retain_drop', [_mv(vr2), _cp(x)], out_, head, span)
+            B[done]['st'].append(_use(dst, _const('()', '()'), line))
+            rw.goto(done, after)
         elif kind == 'partition':
             if cls[0] is None or a[0]['pl']['p']: continue
             it = rw.new_local('?iter'); va = rw.new_local('std::vec::Vec<?>'); vb = rw.new_local('std::vec::Vec<?>')
@@ -647,6 +671,31 @@ def probes_in(body, blocks=None):
     return out
 
 
+def _place_sig(e):
+    """(base, fields) of a projection expression; base = ('call', bb) | ('local', l)"""
+    fs = []
+    while e[0] == 'proj':
+        fs = list(e[2]) + fs; e = e[1]
+    if e[0] == 'place': return ('local', e[1]), list(e[2]) + fs
+    if e[0] == 'local': return ('local', e[1]), fs
+    if e[0] == 'call' and len(e) > 4: return ('call', e[4]), fs
+    return None, fs
+
+
+def holder_of(body, e):
+    """a value moved out of a struct field lives in a local of its own (`let Monomial { mut ids, .. } = m;`): the local
+    that was initialised with exactly the place expression `e`"""
+    if e[0] not in ('place', 'proj') or not e[2] or not any('v1::' in a for a, f in e[2]): return None
+    sig = _place_sig(e)
+    if sig[0] is None: return None
+    for bi, st in body.stmts():
+        rv = st['rv']
+        if not st['dst']['p'] and rv['k'] == 'use' and rv['ops'][0]['k'] in ('copy', 'move') and fields_of_place(rv['ops'][0]['pl']) \
+                and len(body.defs_of(st['dst']['l'])) == 1 and _place_sig(T.expr(body, rv['ops'][0], depth=24)) == sig:
+            return st['dst']['l']
+    return None
+
+
 def coll_root(body, operand):
     """the local collection an iterator / reference operand was made from (`v.iter()`, `&v`, `&mut v`,
     `v.into_iter()`, also when v is a component of a freshly built tuple), else None"""
@@ -659,7 +708,7 @@ def coll_root(body, operand):
             if c.bb == e[4] and not c.dst['p']: return c.dst['l']
     if e[0] == 'local' or (e[0] == 'place' and not e[2]):
         return e[1] if e[1] > body.argc else None
-    return None
+    return holder_of(body, e)
 
 
 def loop_items(body):
@@ -678,8 +727,33 @@ def loop_items(body):
 ITER_TRANSPARENT = re.compile(r'::(into_iter|iter|iter_mut|as_ref|as_mut|deref|deref_mut|as_slice|borrow)(::<.*>)?$')
 
 
+SIBLING = {'Option::Some': ('Option::None',), 'Result::Ok': ('Result::Err',), 'ControlFlow::Continue': ('ControlFlow::Break',)}
+
+
+def through_payload(body, e, _depth=0):
+    """T.expr stops at a local with several definitions.  When that local is an Option / Result built on several paths
+    (the result of a spliced `opt.map(..)`, `filter_map` closure, a `match` producing Some(..) / None) and the expression
+    reads its payload, the payload can only be the operand of the single `Some(..)` / `Ok(..)` definition: continue there."""
+    if _depth > 6 or e[0] != 'place' or not e[2]: return e
+    owner = next((k for k in SIBLING if e[2][0][0].endswith(k)), None)
+    if owner is None: return e
+    defs = [d for d in body.defs_of(e[1]) if not (d[0] == 'stmt' and d[2]['dst']['p'])]
+    some = [d for d in defs if d[0] == 'stmt' and d[2]['rv']['k'] == 'agg' and d[2]['rv']['adt'].endswith(owner)]
+    rest = [d for d in defs if d not in some]
+    if len(some) != 1 or not all(d[0] == 'stmt' and d[2]['rv']['k'] == 'agg' and d[2]['rv']['adt'].endswith(SIBLING[owner]) or (d[0] == 'call' and 'from_residual' in (d[2]['r'] or d[2]['f'])) for d in rest): return e
+    inner = T.expr(body, some[0][2]['rv']['ops'][0], depth=24)
+    fs = list(e[2][1:])
+    while fs and inner[0] == 'agg' and inner[1] == 'tuple' and fs[0][0] == 'tuple' and fs[0][1].isdigit() and int(fs[0][1]) < len(inner[2]):
+        inner = inner[2][int(fs[0][1])]; fs = fs[1:]
+    if fs:
+        if inner[0] == 'place': inner = ('place', inner[1], inner[2] + fs)
+        elif inner[0] == 'proj': inner = ('proj', inner[1], inner[2] + fs)
+        else: inner = ('proj', inner, fs)
+    return through_payload(body, inner, _depth + 1)
+
+
 def label(body, e, _depth=0):
-    e0 = T.strip_wrappers(e)
+    e0 = T.strip_wrappers(through_payload(body, T.strip_wrappers(e)))
     if e0[0] == 'const': return 'const:' + e0[1]
     # value of a state lookup?
     x = e0
@@ -743,8 +817,12 @@ def root_of(body, operand):
         for c in body.calls:
             if c.bb == e[4]: return c.dst['l'] if not c.dst['p'] else None
     if e[0] == 'local': return e[1]
-    if e[0] == 'place': return e[1]
+    if e[0] == 'place':
+        h = holder_of(body, e)
+        return h if h is not None else e[1]
     if e[0] == 'proj':
+        h = holder_of(body, e)
+        if h is not None: return h
         x = e[1]
         while x[0] == 'proj': x = x[1]
         if x[0] == 'call' and len(x) > 4:
@@ -821,6 +899,23 @@ def old_value_of(body, ex):
     return None
 
 
+def simp(e):
+    """arithmetic identities that do not change the value: 0.0 + x, x + 0.0, 1.0 * x, x * 1.0
+    (`let sum = 0.0 + value` for a fresh entry is `value`)"""
+    e = T.arith(e)
+    if e[0] == 'bin' and e[1] in ('Add', 'Mul'):
+        a, b = simp(e[2]), simp(e[3])
+        unit = ('0f64', '-0f64') if e[1] == 'Add' else ('1f64',)
+        if a[0] == 'const' and a[1] in unit: return b
+        if b[0] == 'const' and b[1] in unit: return a
+        return ('bin', e[1], a, b)
+    return e
+
+
+def facs_of(body, e):
+    return tuple(sorted(label(body, f) for f in T.flatten(simp(e), 'Mul')))
+
+
 def effects_in(ctx, body, region, self_adt, where=None, maps=None, keys=None):
     """effects performed in `region`:
         ('acc', target, op, factors)   target (op)= product of factors; target is `self.<field>`, `acc:_N`
@@ -844,12 +939,15 @@ def effects_in(ctx, body, region, self_adt, where=None, maps=None, keys=None):
             def same(o): return o['k'] in ('copy', 'move') and o['pl'] == d
             if same(a) or same(b):
                 other = b if same(a) else a
-                facs = tuple(sorted(label(body, f) for f in T.flatten(T.expr(body, other), 'Mul')))
+                facs = facs_of(body, T.expr(body, other))
                 e_ = ('acc', target_label(ctx, body, d, maps=maps), rv['op'], facs)
                 eff.add(e_)
                 if e_[1].startswith('entry'):
                     ent = entry_of(body, T.expr(body, {'k': 'copy', 'pl': d}, depth=10))
                     if ent is not None: keys.setdefault(e_, set()).add(_key_root(body, ent[0]))
+                elif e_[1].startswith('occupied['):
+                    for y in T.expr_walk(T.expr(body, {'k': 'copy', 'pl': d}, depth=10)):
+                        if y[0] == 'call' and y[1] == 'entry': keys.setdefault(e_, set()).add(_key_root(body, y[3][1])); break
         # accumulator updated through temporaries:  acc = tmp  where  tmp = acc (op) x   (e.g. a spliced `fold`)
         if rv['k'] == 'use' and not d['p'] and body.locals[d['l']] == 'f64' and rv['ops'][0]['k'] in ('copy', 'move') and len(body.defs_of(d['l'])) > 1:
             ex = T.arith(T.expr(body, rv['ops'][0]))
@@ -858,7 +956,7 @@ def effects_in(ctx, body, region, self_adt, where=None, maps=None, keys=None):
                 sides = [T.strip_wrappers(ex[2]), T.strip_wrappers(ex[3])]
                 if me in sides:
                     other = sides[1] if sides[0] == me else sides[0]
-                    facs = tuple(sorted(label(body, f) for f in T.flatten(other, 'Mul')))
+                    facs = facs_of(body, other)
                     eff.add(('acc', 'acc:_%d' % d['l'], ex[1], facs))
         if rv['k'] == 'bin' and rv['op'].startswith('Add') and rv.get('ty') == 'usize' and any(o['k'] == 'const' and o['v'] == '1_usize' for o in rv['ops']):
             eff.add(('inc', 'index'))
@@ -867,7 +965,7 @@ def effects_in(ctx, body, region, self_adt, where=None, maps=None, keys=None):
         eff.cur = c.bb
         m = T.ASSIGN_CALL.match(c.name)
         if m:
-            facs = tuple(sorted(label(body, f) for f in T.flatten(T.expr(body, c.args[1]), 'Mul')))
+            facs = facs_of(body, T.expr(body, c.args[1]))
             eff.add(('acc', target_label(ctx, body, None, c.args[0], maps=maps), m.group(1), facs))
         elif c.item == 'insert' and SET_INSERT.search(c.name):
             eff.add(('report', label(body, T.expr(body, c.args[1]))))
@@ -881,21 +979,27 @@ def effects_in(ctx, body, region, self_adt, where=None, maps=None, keys=None):
                 for old, new in ((val[2], val[3]), (val[3], val[2])):
                     ov = old_value_of(body, T.strip_wrappers(old))
                     if ov is not None and label(body, ov[0]) == key:
-                        facs = tuple(sorted(label(body, f) for f in T.flatten(new, 'Mul')))
+                        facs = facs_of(body, new)
                         e_ = ('acc', 'entry[%s]' % key, 'Add', facs); eff.add(e_); done = True
                         keys.setdefault(e_, set()).add(coll_root(body, c.args[1])); break
+            if not done and absent_only(body, c, key, mroot):
+                e_ = ('acc-vacant', 'entry[%s]' % key, 'Add', facs_of(body, val)); eff.add(e_); done = True
+                keys.setdefault(e_, set()).add(coll_root(body, c.args[1]))
             if not done:
-                facs = tuple(sorted(label(body, f) for f in T.flatten(val, 'Mul')))
+                facs = facs_of(body, val)
                 eff.add(('set', 'entry[%s]' % key, facs))
         elif c.item == 'insert' and re.search(r'VacantEntry::<.*>::insert$', c.name):
             # match m.entry(k) { Vacant(e) => { e.insert(v); } .. }  : the vacant half of  *entry.or_insert(0.0) += v
             ent = [y for y in T.expr_walk(T.expr(body, c.args[0])) if y[0] == 'call' and y[1] == 'entry']
             if ent:
-                facs = tuple(sorted(label(body, f) for f in T.flatten(T.expr(body, c.args[1]), 'Mul')))
-                eff.add(('acc-vacant', 'entry[%s]' % label(body, ent[0][3][1]), 'Add', facs))
+                facs = facs_of(body, T.expr(body, c.args[1]))
+                e_ = ('acc-vacant', 'entry[%s]' % label(body, ent[0][3][1]), 'Add', facs); eff.add(e_)
+                maps.add(_key_root(body, ent[0][3][0])); keys.setdefault(e_, set()).add(_key_root(body, ent[0][3][1]))
         elif c.item in ('swap_remove', 'remove') and re.search(r'Vec::<', c.name):
             fs = [f for a, f in T.access_path(body, c.args[0])[0] if a.endswith(self_adt)]
             eff.add(('remove', fs[-1] if fs else '?'))
+        elif c.item == 'retain_drop':
+            eff.add(('retain-drop', root_of(body, c.args[0]), label(body, T.expr(body, c.args[1]))))
         elif c.item == 'push' and VEC_PUSH.search(c.name):
             eff.add(('push', root_of(body, c.args[0]), label(body, T.expr(body, c.args[1]))))
     return eff
@@ -915,6 +1019,11 @@ def target_label(ctx, body, dst_place, operand=None, maps=None):
         if maps is not None: maps.add(_key_root(body, ent[1]))
         return ('entry[%s]' if ent[2] else 'entry-nonzero-default[%s]') % label(body, ent[0])
     # `*occupied.get_mut() += v` : the occupied half of the entry idiom
+    # `if let Some(x) = m.get_mut(&k) { *x += v } else { m.insert(k, v) }` : the present half
+    for x in T.expr_walk(ex):
+        if x[0] == 'call' and x[1] == 'get_mut' and re.search(MAP_KV + r'::get_mut', x[2]) and len(x[3]) > 1:
+            if maps is not None: maps.add(_key_root(body, x[3][0]))
+            return 'occupied[%s]' % label(body, x[3][1])
     for x in T.expr_walk(ex):
         if x[0] == 'call' and x[1] in ('get_mut', 'into_mut') and 'OccupiedEntry' in x[2]:
             e2 = [y for y in T.expr_walk(x) if y[0] == 'call' and y[1] == 'entry']
@@ -927,17 +1036,36 @@ def target_label(ctx, body, dst_place, operand=None, maps=None):
 
 def _key_root(body, e):
     """the local collection a key expression is (a clone of)"""
+    mb = T._mut_borrowed(body)
     for _ in range(8):
-        if e[0] == 'call' and e[3] and T.TRANSPARENT.search(T.strip_generics_tail(e[2])): e = e[3][0]; continue
+        if e[0] == 'call' and e[3] and T.TRANSPARENT.search(T.strip_generics_tail(e[2])):
+            # a clone that is itself a variable being filled / filtered (`let mut ids = term.ids.clone(); ids.retain(..)`) is the collection
+            if len(e) > 4:
+                d = next((c.dst['l'] for c in body.calls if c.bb == e[4] and not c.dst['p']), None)
+                if d is not None and d in mb: return d
+            e = e[3][0]; continue
         break
     if e[0] == 'call' and e[1] == 'new' and len(e) > 4:
         for c in body.calls:
             if c.bb == e[4] and not c.dst['p']: return c.dst['l']
     if e[0] == 'local' or (e[0] == 'place' and not e[2]): return e[1]
-    return None
+    return holder_of(body, e)
 
 
-def combine_halves(eff, where):
+def absent_only(body, ins, key, mroot):
+    """the insert `ins` happens only where the map is known not to contain the key:
+         None arm of m.get_mut(&k) / m.get(&k), false side of m.contains_key(&k)"""
+    for c in body.calls:
+        if c is ins or len(c.args) < 2 or c.item not in ('get_mut', 'get', 'contains_key') or not re.search(MAP_KV + r'::(get_mut|get|contains_key)', c.name): continue
+        if root_of(body, c.args[0]) != mroot or label(body, T.expr(body, c.args[1])) != key: continue
+        absent = 0
+        r_abs = walk(body, [c.target], stop={c.bb}, env0={(c.dst['l'], ()): absent})[0] if c.target >= 0 else set()
+        r_pre = walk(body, [c.target], stop={c.bb}, env0={(c.dst['l'], ()): 1})[0] if c.target >= 0 else set()
+        if ins.bb in r_abs and ins.bb not in r_pre and body.dominates(c.bb, ins.bb): return True
+    return False
+
+
+def combine_halves(eff, where, keys=None):
     """('acc-vacant', K, Add, f) on the vacant arm + ('acc', occupied[K], Add, f) on the occupied arm of one
     `match m.entry(k)`  ==  ('acc', entry[K], Add, f)"""
     for e in list(eff):
@@ -948,6 +1076,7 @@ def combine_halves(eff, where):
                 eff.discard(e); eff.discard(occ)
                 new = ('acc', e[1], e[2], e[3]); eff.add(new)
                 where[new] = where.get(e, set()) | where.get(occ, set())
+                if keys is not None: keys[new] = keys.get(e, set()) | keys.get(occ, set())
     return eff
 
 
@@ -1095,6 +1224,19 @@ def acc_defs(body, local):
     return init, ups
 
 
+def small_tests(body, blocks):
+    """`|x| is negligible` tests: (bb, stmt, small_is_true):  x.abs() <= EPSILON | x.abs() < EPSILON (true = negligible),
+    x.abs() > EPSILON | x.abs() >= EPSILON (false = negligible), also with the constant on the left"""
+    out = []
+    for bi, st in float_cmp_sites(body, ('Le', 'Lt', 'Gt', 'Ge')):
+        ops = st['rv']['ops']
+        if bi not in blocks or not any(o['k'] == 'const' and 'EPSILON' in o['v'] for o in ops): continue
+        const_left = ops[0]['k'] == 'const'
+        le = st['rv']['op'] in ('Le', 'Lt')
+        out.append((bi, st, le != const_left))
+    return out
+
+
 class PolyInfo:
     """What happens to the ids of one monomial and to its value (Polynomial::partial_evaluate).
     Ids may be handled where they are probed, or pushed to a local vector that is processed later:
@@ -1109,13 +1251,17 @@ class PolyInfo:
         self.vec_fx = {}           # vec local -> set of effects applied to each of its elements
         self.kept_vecs = set()
         self.value_local = None; self.value_init = None
-        self.key_vec = None; self.adds_value = False; self.acc_blocks = set(); self.map_local = None
+        self.key_vec = None; self.adds_value = False; self.acc_blocks = set(); self.map_local = None; self.retained = set(); self.retain_label = None
         loops = [lo for lo in T.for_loops(b) if set(lo[4]) < blocks]
         items = loop_items(b)
         # ---- all effects of the monomial loop's body
         where = {}; maps = set(); keys = {}
         alleff = effects_in(ctx, b, blocks, 'v1::Polynomial', where, maps, keys)
+        combine_halves(alleff, where, keys)
         vecs = {e[1] for e in alleff if e[0] == 'push'}
+        # vectors filtered in place: `ids.retain(|id| ..)` — they start with all ids of the monomial and lose the dropped ones
+        self.retained = {e[1] for e in alleff if e[0] == 'retain-drop'}
+        vecs |= self.retained
         # the value accumulator: the local that is multiplied by the fixed values
         cand = {e[1] for e in alleff if e[0] == 'acc' and e[2] == 'Mul' and e[1].startswith('acc:_') and any(f.startswith('val[') for f in e[3])}
         if len(cand) == 1:
@@ -1154,27 +1300,49 @@ class PolyInfo:
         if self.key_vec is not None:
             self.kept_vecs.add(self.key_vec)
             for lab in pushed_labels(b, self.key_vec): self.vec_fx[self.key_vec].add(('keep-id', lab))
+            if self.key_vec in self.retained:
+                # the key is the monomial's own id vector after `retain`: it must have started as exactly the ids of the monomial
+                lab = label(b, T.expr(b, {'k': 'copy', 'pl': {'l': self.key_vec, 'p': []}}))
+                self.retain_label = lab if not pushed_labels(b, self.key_vec) else None
         self.map_local = next(iter(maps)) if len(maps) == 1 else None
         # the entry may be dropped again instead of written when the new sum vanishes:
         #   if sum.abs() <= EPSILON { m.remove(&k) } else { m.insert(k, sum) }   ==   *m.entry(k).or_default() += v; if it.abs() <= EPSILON { m.remove(&k) }
+        # a fresh entry that would be (almost) zero need not be created:
+        #   Entry::Vacant(e) => if !(v.abs() <= EPSILON) { e.insert(v); }     (nothing to remove: the key is absent)
+        for c in b.calls:
+            if c.bb in self.acc_blocks and c.item == 'insert' and re.search(r'VacantEntry::<.*>::insert$', c.name) and len(c.args) == 2:
+                val = simp(T.expr(b, c.args[1]))
+                for bi, st, small in small_tests(b, blocks):
+                    oth = [o for o in st['rv']['ops'] if o['k'] != 'const']
+                    ax = T.strip_wrappers(T.expr(b, oth[0])) if oth else None
+                    if ax is not None and ax[0] == 'call' and ax[1] == 'abs' and ax[3] and simp(ax[3][0]) == val:
+                        for g in T.guards_from_local(b, st['dst']['l'], bi):
+                            sb = g.true_bb if small else g.false_bb
+                            if sb is not None and c.bb not in b.reach([sb], {outer[1]}) and b.dominates(g.switch_bb, c.bb): self.acc_blocks.add(sb)
         for c in b.calls:
             if c.bb in self.acc_blocks and c.item == 'insert' and len(c.args) == 3:
                 val = T.expr(b, c.args[2])
-                for bi, st in float_cmp_sites(b, ('Le', 'Lt')):
-                    if bi in blocks and any(o['k'] == 'const' and 'EPSILON' in o['v'] for o in st['rv']['ops']):
-                        oth = [o for o in st['rv']['ops'] if o['k'] != 'const']
-                        ax = T.strip_wrappers(T.expr(b, oth[0])) if oth else None
-                        if ax is not None and ax[0] == 'call' and ax[1] == 'abs' and ax[3] and T.strip_wrappers(ax[3][0]) == T.strip_wrappers(val):
-                            for g in T.guards_from_local(b, st['dst']['l'], bi):
-                                rm = [x for x in b.calls if x.item == 'remove' and 'BTreeMap' in x.name and g.true_bb is not None and x.bb in b.reach([g.true_bb], {outer[1]})
-                                      and coll_root(b, x.args[1]) == self.key_vec and root_of(b, x.args[0]) == self.map_local]
-                                if rm and c.bb not in b.reach([g.true_bb], {outer[1]}): self.acc_blocks.add(g.true_bb)
+                for bi, st, small in small_tests(b, blocks):
+                    oth = [o for o in st['rv']['ops'] if o['k'] != 'const']
+                    ax = T.strip_wrappers(T.expr(b, oth[0])) if oth else None
+                    if ax is not None and ax[0] == 'call' and ax[1] == 'abs' and ax[3] and T.strip_wrappers(ax[3][0]) == T.strip_wrappers(val):
+                        for g in T.guards_from_local(b, st['dst']['l'], bi):
+                            sb = g.true_bb if small else g.false_bb
+                            rm = [x for x in b.calls if x.item == 'remove' and 'BTreeMap' in x.name and sb is not None and x.bb in b.reach([sb], {outer[1]})
+                                  and coll_root(b, x.args[1]) == self.key_vec and root_of(b, x.args[0]) == self.map_local]
+                            if rm and c.bb not in b.reach([sb], {outer[1]}): self.acc_blocks.add(sb)
 
     def resolve(self, eff):
         out = set()
+        # in-place model: an id stays in the key vector unless this case drops it
+        if self.key_vec in self.retained and self.retain_label is not None:
+            drops = [e for e in eff if (e[1:] if e[0] == 'sometimes' else e)[:2] == ('retain-drop', self.key_vec)]
+            if not drops: out.add(('keep-id', self.retain_label))
+            elif all(e[0] == 'sometimes' for e in drops): out.add(('sometimes', 'keep-id', self.retain_label))
         for e in eff:
             some = e[0] == 'sometimes'
             x = e[1:] if some else e
+            if x[0] == 'retain-drop' and x[1] == self.key_vec and self.retain_label is not None and x[2] == self.retain_label: continue
             if x[0] == 'push':
                 for d in self.vec_fx.get(x[1], {('push', x[1], x[2])}):
                     out.add(d if not some or d[0] == 'sometimes' else ('sometimes',) + d)
@@ -1239,7 +1407,7 @@ def prov(ctx, body, operand, _depth=0, _seen=None):
     return out
 
 
-PROV_TRANSPARENT = re.compile(T.TRANSPARENT.pattern[:-len(r')(::<.*>)?$')] + r'|into_iter|iter|iter_mut|as_slice|as_mut_slice|unwrap_or_default)(::<.*>)?$')
+PROV_TRANSPARENT = re.compile(T.TRANSPARENT.pattern[:-len(r')(::<.*>)?$')] + r'|into_iter|iter|iter_mut|as_slice|as_mut_slice|unwrap_or_default|take)(::<.*>)?$')
 
 
 def from_self_field(ctx, body, operand, adt, field, self_param=1):
@@ -1293,7 +1461,7 @@ def flows_from(body, local):
             elif kind == 'call':
                 nm = x.name
                 if T.TRY_BRANCH.search(nm) or T.TRANSPARENT.search(T.strip_generics_tail(nm)) or SAME_VARIANT.search(nm) or ERR_ADAPTORS.search(nm) \
-                        or ITER_TRANSPARENT.search(T.strip_generics_tail(nm)) or (x.item == 'next' and (x.trait or '').endswith('Iterator')) \
+                        or ITER_TRANSPARENT.search(T.strip_generics_tail(nm)) or (x.item in ('next', 'flatten', 'chain', 'zip') + PROV_THROUGH and (x.trait or '').endswith('Iterator')) \
                         or re.search(r'::(unwrap_or_default|unwrap_or|unwrap_or_else|transpose)(::<.*>)?$', nm):
                     if x.arg_local(0) == l: nxt = x.dst['l']
                 elif MERGE_CALL.search(nm) and len(x.args) >= 2 and x.arg_local(0) != l:
@@ -1427,7 +1595,7 @@ def early_exits(body, blocks, normal_switch, header):
     out = []
     oks = body.strict_ok_exits()
     for u in sorted(blocks):
-        if u == normal_switch: continue
+        if u == normal_switch or (isinstance(normal_switch, (set, frozenset)) and u in normal_switch): continue
         for v in body.succ(u):
             if v in blocks or body.blocks[v]['cleanup']: continue
             if walk(body, [v], stop={header})[0] & oks or (v in oks): out.append((u, v))
@@ -1435,8 +1603,13 @@ def early_exits(body, blocks, normal_switch, header):
 
 
 def for_loop_switch(body, lo):
-    arms = T.option_arms(body, lo[0].dst['l'])
-    return arms[0][0] if arms else None
+    """the end-of-iteration test(s) of a `for` loop; several when nested iterators share one natural loop (flat_map)"""
+    out = set()
+    for o in T.for_loops(body):
+        if o[1] == lo[1] and set(o[4]) == set(lo[4]):
+            arms = T.option_arms(body, o[0].dst['l'])
+            if arms: out.add(arms[0][0])
+    return out
 
 
 def no_early_exit(ctx, rule, body, lo):
@@ -1559,3 +1732,74 @@ def coll_source(body, operand):
         if e[0] == 'call' and e[3] and ITER_TRANSPARENT.search(T.strip_generics_tail(e[2])): e = e[3][0]; continue
         break
     return e
+
+
+# ------------------------------------------------------------------------------- every iteration is probed
+def loop_body_starts(body, blocks, sw):
+    """first blocks of the body of an index loop: successors of the end-of-loop test that stay in the loop"""
+    return [v for v in body.succ(sw) if v in blocks] if sw is not None else []
+
+
+def every_iteration_passes(ctx, rule, body, blocks, header, sw, via, what):
+    """T-LOOPMUST for index loops: no path from the start of the loop body back to the header avoids `via`
+    (an element that is skipped before it is looked at stays in place untouched)"""
+    starts = loop_body_starts(body, set(blocks), sw)
+    ok = bool(starts) and all(T.must_pass(body, s_, {header}, set(via)) for s_ in starts)
+    ctx.check(ok, rule, 'T-LOOPMUST', body.name, 'a path through the loop body skips %s' % what, body.site())
+    return ok
+
+
+# ------------------------------------------------------------------------------- complete copies of a list field
+SHRINK = ('retain', 'retain_mut', 'remove', 'swap_remove', 'clear', 'pop', 'truncate', 'drain', 'split_off', 'dedup', 'dedup_by', 'dedup_by_key', 'extract_if', 'take')
+
+
+def complete_field_copy(ctx, body, operand, adt, field, self_param=1, _depth=0):
+    """Is the value of `operand` the complete collection self.<field>?
+         'yes'      moved out of self.<field> (which is never shrunk), or a local Vec filled by an unconditional push of every
+                    element of an unrestricted, never-left loop over self.<field>
+         'no'       rebuilt with a conditional push / from a restricted loop, or self.<field> is shrunk (retain, remove, ..)
+         'unknown'  anything else"""
+    if operand['k'] not in ('copy', 'move'): return 'unknown'
+    e = T.strip_wrappers(T.expr(body, operand, depth=24))
+    def shrunk(pred):
+        for c in body.calls:
+            if c.item in SHRINK and c.args and T.MUT_CALL.search(c.name) and pred(c.args[0]): return True
+        return False
+    if e[0] == 'place' and e[1] == self_param and [x for x in e[2] if 'v1::' in x[0]] == [(x[0], field) for x in e[2] if 'v1::' in x[0]][:1] and e[2] and e[2][-1][1] == field and e[2][-1][0].endswith(adt):
+        def on_field(a):
+            fs, root, calls = T.access_path(body, a)
+            return root == self_param and [x for x in fs if 'v1::' in x[0]][-1:] == [(e[2][-1][0], field)]
+        # `self.f = rebuilt;` : the field holds what was assigned last; judge that value (the old content was consumed on purpose)
+        assigned = []
+        for bi, st in body.stmts():
+            d = st['dst']
+            if d['p'] and st['rv'].get('ops') and st['rv']['k'] == 'use':
+                fs, root, calls = T.access_path(body, {'k': 'copy', 'pl': d}, transparent=T.TRANSPARENT_NOCLONE)
+                if root == self_param and [x for x in fs if 'v1::' in x[0]] == [(e[2][-1][0], field)]: assigned.append(st['rv']['ops'][0])
+        if assigned and _depth < 2:
+            vs = {complete_field_copy(ctx, body, o, adt, field, self_param, _depth + 1) for o in assigned}
+            return 'no' if 'no' in vs else ('yes' if vs == {'yes'} else 'unknown')
+        return 'no' if shrunk(on_field) else 'yes'
+    v = None
+    if e[0] == 'call' and len(e) > 4 and e[1] in ('new', 'with_capacity', 'default'):
+        v = next((c.dst['l'] for c in body.calls if c.bb == e[4] and not c.dst['p']), None)
+    if v is None: return 'unknown'
+    pushes = [c for c in body.calls if c.item in ('push', 'insert', 'push_back') and len(c.args) >= 2 and root_of(body, c.args[0]) == v]
+    if not pushes: return 'unknown'
+    if shrunk(lambda a: root_of(body, a) == v): return 'no'
+    for c in pushes:
+        los = [lo for lo in T.for_loops(body) if c.bb in lo[4]]
+        if not los: return 'unknown'
+        lo = min(los, key=lambda l: len(l[4]))
+        if not from_self_field(ctx, body, lo[0].args[0], adt, field, self_param): return 'unknown'
+        if lo[0].dst['l'] not in ctx.S.slice_operand(body, c.args[-1]).locals: return 'unknown'
+        restr = [x for x in ctx.S.slice_operand(body, lo[0].args[0]).call_objs if x.item in RESTRICTING and 'Iterator' in (x.trait or '')]
+        if restr or not T.must_pass(body, lo[2], {lo[1]}, {c.bb}) or early_exits(body, set(lo[4]), for_loop_switch(body, lo), lo[1]): return 'no'
+    return 'yes'
+
+
+class Swapped:
+    """a guard seen from the negated test (`x != K` as `x == K`)"""
+    def __init__(self, g):
+        self.g = g; self.switch_bb = g.switch_bb; self.true_bb = g.false_bb; self.false_bb = g.true_bb
+    def describe(self): return 'negated ' + self.g.describe()
